@@ -14,6 +14,12 @@ stdin: {'mode': ..., ...}; stdout (last line): JSON.
   mode 'diagnose' {'calls': [...], 'index': k}  the history is run up to k-1, then call k is evaluated (a) as is,
                  (b) after emptying every cache, (c) after emptying one cache at a time (on a restored state).
 
+  mode 'mutate'  {'calls': [spec...]}   the mutate-the-result stream: per call R = f(A...) three forks of THIS (pristine) process:
+                 (P_A) build A, follow-up values g(A); (P_R) build A, R = f(A), digest of R, follow-up values g(R);
+                 (M) for each edit kind in mask / data / list: build A afresh, R = f(A), snapshot A (raw bytes of every data and
+                 mask buffer, lists), apply the standard in-place edit to every buffer of that kind of R, report which buffers of A
+                 changed, g(A), f(A) again; and the mirror: edit A, report which buffers of R changed, g(R).
+
 A call specification is a JSON object {'op': ..., ...}; see BUILDERS.
 """
 import sys, json, warnings, logging, hashlib, copy, os, io, math, gc
@@ -128,6 +134,110 @@ def numdiff(a, b):
             st['ok'] = False
     rec(a, b)
     return st
+
+# ------------------------------------------------------------------------------------------------------------------
+# buffers and aliasing: an array-like is a bundle of buffers - the data, the mask (when it is an array), label lists
+
+def buffers(x, name, out=None, depth=0):
+    """[(label, buffer)] for every buffer reachable in x: ndarray buffers (data, mask) and list objects (identity)"""
+    if out is None:
+        out = []
+    if depth > 6:
+        return out
+    if isinstance(x, np.ma.MaskedArray):
+        out.append((name + '.data', np.ma.getdata(x)))
+        m = np.ma.getmask(x)
+        if m is not np.ma.nomask and isinstance(m, np.ndarray):
+            out.append((name + '.mask', m))
+        for attr in ('pop_ids', 'extrap_x'):
+            v = getattr(x, attr, None)
+            if isinstance(v, list):
+                out.append((name + '.' + attr, v))
+            elif isinstance(v, np.ndarray):
+                out.append((name + '.' + attr, v))
+    elif isinstance(x, np.ndarray):
+        out.append((name + '.data', x))
+    elif isinstance(x, (list, tuple)):
+        if isinstance(x, list):
+            out.append((name, x))
+        for i, v in enumerate(x):
+            if isinstance(v, (np.ndarray, list, tuple, dict)):
+                buffers(v, '%s[%d]' % (name, i), out, depth + 1)
+    elif isinstance(x, dict):
+        out.append((name, x))
+        for k, v in x.items():
+            if isinstance(v, (np.ndarray, list, tuple, dict)):
+                buffers(v, '%s{%s}' % (name, str(k)[:20]), out, depth + 1)
+    return out
+
+def shares(a, b):
+    if isinstance(a, np.ndarray) and isinstance(b, np.ndarray):
+        if a.size == 0 or b.size == 0:
+            return False
+        return bool(np.may_share_memory(a, b)) and bool(np.shares_memory(a, b))
+    if isinstance(a, np.ndarray) or isinstance(b, np.ndarray):
+        return False
+    return a is b
+
+import re as _re
+def norm_label(l):
+    return _re.sub(r'\{[^}]*\}', '{*}', _re.sub(r'\[\d+\]', '[*]', l))
+
+def global_buffers():
+    """every array / list / dictionary held at module level of an imported dadi module (caches and whatever they store included)"""
+    out, seen = [], set()
+    for mname, m in sorted(sys.modules.items()):
+        if m is None or not (mname == 'dadi' or mname.startswith('dadi.')):
+            continue
+        for attr, val in list(vars(m).items()):
+            if attr.startswith('__') or not isinstance(val, (np.ndarray, list, tuple, dict)) or id(val) in seen:
+                continue
+            seen.add(id(val))
+            buffers(val, 'global:%s.%s' % (mname.replace('dadi.', '', 1) if mname != 'dadi' else 'dadi', attr), out, depth=3)
+    return out
+
+def alias_pairs(res, frozen):
+    """(result buffer, argument / module-level buffer) pairs that share memory (lists, dictionaries: are the same object)"""
+    rb = buffers(res, 'R')
+    if not rb:
+        return [], False
+    ab = []
+    for n, o in frozen.items():
+        buffers(o, n, ab)
+    ab += global_buffers()
+    pairs = set()
+    for rl, r in rb:
+        for al, a in ab:
+            if shares(r, a):
+                pairs.add((norm_label(rl), norm_label(al)))
+    # two DIFFERENT array-likes inside one result (elements of a returned list / tuple) sharing a buffer alias each other the same way
+    def owner(l):
+        return _re.sub(r'\.(data|mask|pop_ids|extrap_x)$', '', l)
+    for i in range(len(rb)):
+        for j in range(i + 1, len(rb)):
+            (li, bi), (lj, bj) = rb[i], rb[j]
+            oi, oj = owner(li), owner(lj)
+            if oi == oj or oi.startswith(oj + '[') or oj.startswith(oi + '[') or isinstance(bi, (list, dict)) != isinstance(bj, (list, dict)):
+                continue
+            if shares(bi, bj):
+                pairs.add((norm_label(li), 'result:' + norm_label(lj)))
+    return [list(p) for p in sorted(pairs)], True
+
+def raw_snapshot(objs):
+    """label -> sha1 of the raw bytes (dtype, shape, every byte of the buffer as laid out logically; masked entries included)"""
+    out = {}
+    for n, o in objs.items():
+        for lab, bf in buffers(o, n):
+            if isinstance(bf, np.ndarray):
+                if bf.dtype.kind == 'O':
+                    out[lab] = digest(canon(bf))
+                else:
+                    out[lab] = hashlib.sha1(repr((bf.dtype.str, bf.shape)).encode() + np.ascontiguousarray(bf).tobytes()).hexdigest()[:20]
+            elif isinstance(bf, dict):
+                out[lab] = digest(canon(bf))
+            else:
+                out[lab] = digest(canon(bf))
+    return out
 
 # ------------------------------------------------------------------------------------------------------------------
 # argument construction (with optional re-layout of one named array argument)
@@ -338,7 +448,108 @@ def b_sp(A, s):
         return thunk
     if m == 'sum':
         return lambda: fs.sum()
+    if m in ('sample', 'fixed_size_sample'):
+        # draw from numpy's global generator (a random SOURCE): fixed by the driver before the call
+        def thunk_s():
+            np.random.seed(s.get('seed', 11))
+            return getattr(fs, m)(*a)
+        return thunk_s
     return lambda: getattr(fs, m)(*a)
+
+_OPS = ('add', 'sub', 'mul', 'truediv', 'floordiv', 'pow')
+
+def mk_other(A, o, shape, folded=False):
+    """the other operand of an arithmetic operator"""
+    k = o['k']
+    if k == 'float':
+        return A.keep('other', float(o['v']))
+    if k == 'int':
+        return A.keep('other', int(o['v']))
+    if k == 'npfloat':
+        return A.keep('other', np.float64(o['v']))
+    if k == 'np0d':
+        x = np.array(float(o['v'])); A.frozen['other'] = x
+        return x
+    vals = np.array(o['vals'], dtype=float).reshape(shape)
+    if k == 'ndarray':
+        return A.arr('other', vals)
+    if k in ('ma_nomask', 'ma_mask'):
+        if k == 'ma_nomask':
+            x = np.ma.masked_array(vals)
+        else:
+            mk = np.zeros(shape, dtype=bool); mk.flat[o.get('mask_at', 2) % mk.size] = True
+            x = np.ma.masked_array(vals, mask=mk)
+        A.frozen['other'] = x
+        return x
+    if k in ('spectrum', 'spectrum_nomc'):
+        r = {'shape': list(shape), 'vals': o['vals'], 'mask_corners': k == 'spectrum', 'pop_ids': o.get('pop_ids'), 'fold': folded}
+        if o.get('mask'):
+            r['mask'] = o['mask']
+        return mk_fs(A, 'other', r)
+    raise ValueError(k)
+
+def b_ar(A, s):
+    """Spectrum arithmetic: fs <op> other (side 'l'), other <op> fs ('r': the reflected method), fs <op>= other ('i')"""
+    import operator
+    fs = mk_fs(A, 'self', s['fs'])
+    other = mk_other(A, s['other'], fs.shape, folded=bool(s['fs'].get('fold')))
+    o, side = s['o'], s['side']
+    assert o in _OPS
+    if side == 'l':
+        f = getattr(operator, o)
+        return lambda: f(fs, other)
+    if side == 'r':
+        f = getattr(operator, o)
+        return lambda: f(other, fs)
+    f = getattr(operator, 'i' + o)
+    return lambda: f(fs, other)
+
+def b_nx(A, s):
+    """numpy-level operations on a Spectrum (unary operators, ufuncs, views, copies, the constructor) and the array helpers of
+    Numerics / Misc / Inference that return arrays"""
+    k = s['k']
+    if k == 'intersect_masks':
+        m1 = mk_fs(A, 'm1', s['fs']); m2 = mk_fs(A, 'm2', s['fs2'])
+        if s.get('plain2'):
+            m2 = np.array(np.ma.getdata(m2)); A.frozen['m2'] = m2
+        return lambda: Numerics.intersect_masks(m1, m2)
+    if k == 'trapz':
+        yy = A.arr('yy', np.array(s['yy']['vals'], dtype=float).reshape(s['yy']['shape']))
+        ax = s.get('axis', -1)
+        if s.get('dx') is not None:
+            dx = A.arr('dx', [s['dx']] * (yy.shape[ax] - 1))      # dadi's trapz takes the array of spacings (len(dx) + 1 == yy.shape[axis])
+            return lambda: Numerics.trapz(yy, dx=dx, axis=ax)
+        xx = A.arr('xx', _grid(yy.shape[ax], s.get('grid')))
+        return lambda: Numerics.trapz(yy, xx, axis=ax)
+    if k == 'reverse_ndarray':
+        arr = A.arr('arr', np.array(s['fs']['vals'], dtype=float).reshape(s['fs']['shape']))
+        return lambda: Numerics.reverse_array(arr)
+    fs = mk_fs(A, 'self', s['fs'])
+    if k == 'misc_combine_pops':
+        idx = A.keep('idx', list(s['idx']))
+        return lambda: Misc.combine_pops(fs, idx)
+    if k == 'anc_misid':
+        return lambda: Numerics.apply_anc_state_misid(fs, s.get('p', 0.125))
+    if k == 'slice':
+        return lambda: fs[tuple(slice(1, None) for _ in fs.shape)]
+    if k == 'row':
+        return lambda: fs[1]
+    if k == 'swapaxes':
+        return lambda: fs.swapaxes(0, fs.ndim - 1)
+    if k == 'construct':
+        return lambda: Spectrum(fs)
+    if k == 'construct_parts':
+        # Spectrum(data, mask=mask, pop_ids=pop_ids): the constructor documented to make a new object from arrays
+        data = A.arr('data', np.ma.getdata(fs)); mask = np.array(np.ma.getmaskarray(fs)); A.frozen['mask'] = mask
+        ids = A.keep('pop_ids', list(fs.pop_ids) if fs.pop_ids else None)
+        return lambda: Spectrum(data, mask=mask, pop_ids=ids, mask_corners=s.get('mask_corners', True))
+    f = {'neg': lambda x: -x, 'pos': lambda x: +x, 'abs': abs, 'ma_exp': np.ma.exp, 'ma_log': np.ma.log, 'ma_sqrt': np.ma.sqrt, 'np_sqrt': np.sqrt,
+         'np_exp': np.exp, 'np_negative': np.negative, 'np_multiply': lambda x: np.multiply(x, 2.0), 'ellipsis': lambda x: x[...],
+         'transpose': lambda x: x.transpose(), 'copy': lambda x: x.copy(), 'view': lambda x: x.view(), 'filled': lambda x: x.filled(0.0),
+         'ravel': lambda x: x.ravel(), 'flatten': lambda x: x.flatten(), 'cumsum': lambda x: x.cumsum(axis=0), 'sum_axis': lambda x: x.sum(axis=0),
+         'astype': lambda x: x.astype(float), 'reverse_array': Numerics.reverse_array, 'getdata': np.ma.getdata, 'getmaskarray': np.ma.getmaskarray,
+         'deepcopy': copy.deepcopy, 'pickle': lambda x: __import__('pickle').loads(__import__('pickle').dumps(x))}[k]
+    return lambda: f(fs)
 
 def b_dd(A, s):
     dd = {}
@@ -431,6 +642,25 @@ def b_pm(A, s):
         return lambda: f(PhiManip.reorder_pops(phi, order), xx, s['T'], **kw)
     if k == 'phi_1D':
         return lambda: PhiManip.phi_1D(xx, nu=s.get('nu', 1.0), theta0=s.get('theta0', 1.0), gamma=s.get('gamma', 0), h=s.get('h', 0.5))
+    if k == 'phi_1D_genic':
+        return lambda: PhiManip.phi_1D_genic(xx, nu=s.get('nu', 1.0), theta0=s.get('theta0', 1.0), gamma=s.get('gamma', 0))
+    if k == 'phi_1D_snm':
+        return lambda: PhiManip.phi_1D_snm(xx, nu=s.get('nu', 1.0), theta0=s.get('theta0', 1.0))
+    if k == 'phi_1D_X':
+        return lambda: PhiManip.phi_1D_X(xx, nu=s.get('nu', 1.0), theta0=s.get('theta0', 1.0), gamma=s.get('gamma', 0))
+    if k == 'filter':
+        keep = A.keep('tokeep', list(s['tokeep']))
+        return lambda: PhiManip.filter_pops(phi, xx, keep)
+    if k == 'admix_inplace':
+        # documented "Alters phi in place and returns the new version"
+        f = s['f']
+        if d == 2:
+            g = getattr(PhiManip, s.get('fn', 'phi_2D_admix_1_into_2'))
+            return lambda: g(phi, f[0], xx, xx)
+        if d == 3:
+            g = getattr(PhiManip, s.get('fn', 'phi_3D_admix_1_and_2_into_3'))
+            return lambda: g(phi, f[0], f[1], xx, xx, xx)
+        raise ValueError(d)
     raise ValueError(k)
 
 def b_model(A, s):
@@ -697,7 +927,7 @@ def b_export(A, s):
                 'f_contiguous': bool(data.flags['F_CONTIGUOUS']), 'strides': [int(v) for v in data.strides]}
     return thunk
 
-BUILDERS = {'export': b_export, 'sp': b_sp, 'dd': b_dd, 'from_phi': b_from_phi, 'integ': b_integ, 'pm': b_pm, 'model': b_model, 'lp': b_lp,
+BUILDERS = {'export': b_export, 'ar': b_ar, 'nx': b_nx, 'sp': b_sp, 'dd': b_dd, 'from_phi': b_from_phi, 'integ': b_integ, 'pm': b_pm, 'model': b_model, 'lp': b_lp,
             'num': b_num, 'll': b_ll, 'opt': b_opt, 'gim': b_gim, 'demes': b_demes}
 
 # ------------------------------------------------------------------------------------------------------------------
@@ -875,6 +1105,9 @@ def evaluate(spec, layout=None, full=False):
                 al.append(n)
     rec['aliased'] = al
     rec['result_is_arg'] = [n for n in A.alias_check if res is A.frozen[n]]
+    if res is not None:
+        # EVERY buffer of the result (data, mask, label lists) against every buffer of every argument and of every module-level object
+        rec['alias_pairs'], rec['array_like'] = alias_pairs(res, A.frozen)
     if (spec.get('seq') or 'evals' in spec) and isinstance(res, list):
         rec['elements'] = [digest(canon(x)) for x in res]
     if spec['op'] == 'export' and isinstance(res, dict):
@@ -958,9 +1191,222 @@ def mode_diagnose(p):
     return res
 
 
+# ------------------------------------------------------------------------------------------------------------------
+# the mutate-the-result stream
+
+EDIT_KINDS = ('mask', 'data', 'list')
+
+def _edit_array_data(d, lab, done):
+    try:
+        if d.size == 0:
+            return
+        if d.dtype.kind == 'f' or d.dtype.kind == 'c':
+            d *= 2.0; d += 1.0
+        elif d.dtype.kind in 'iu':
+            d += 1
+        elif d.dtype.kind == 'b':
+            np.logical_not(d, out=d)
+        else:
+            return
+        done.append(lab + '.data: scaled in place (x*2+1)')
+    except (ValueError, TypeError) as e:
+        done.append(lab + '.data: not writable (%s)' % type(e).__name__)
+
+def edit_obj(x, name, kind, done, depth=0):
+    """the standard in-place edit of one kind on every buffer of that kind reachable in x"""
+    if depth > 6:
+        return
+    if isinstance(x, np.ma.MaskedArray):
+        if kind == 'mask':
+            m = np.ma.getmask(x)
+            if m is not np.ma.nomask and isinstance(m, np.ndarray) and m.size:
+                mr = m.ravel(); dr = np.ma.getdata(x).ravel()
+                cand = [int(i) for i in np.flatnonzero(~mr) if 0 < i < m.size - 1] or [int(i) for i in np.flatnonzero(~mr)]
+                good = [i for i in cand if dr.dtype.kind == 'f' and np.isfinite(dr[i]) and dr[i] != 0]
+                try:
+                    if cand:
+                        i = (good or cand)[0]
+                        m.flat[i] = True
+                        done.append('%s.mask.flat[%d] = True' % (name, i))
+                    else:
+                        i = m.size // 2
+                        m.flat[i] = False
+                        done.append('%s.mask.flat[%d] = False' % (name, i))
+                except (ValueError, TypeError) as e:
+                    done.append('%s.mask: not writable (%s)' % (name, type(e).__name__))
+        elif kind == 'data':
+            _edit_array_data(np.ma.getdata(x), name, done)
+        elif kind == 'list':
+            for attr in ('pop_ids', 'extrap_x'):
+                v = getattr(x, attr, None)
+                if isinstance(v, list):
+                    v.append('edited'); done.append('%s.%s.append(...)' % (name, attr))
+    elif isinstance(x, np.ndarray):
+        if kind == 'data':
+            _edit_array_data(x, name, done)
+    elif isinstance(x, (list, tuple)):
+        for i, v in enumerate(list(x)):
+            if isinstance(v, (np.ndarray, list, tuple, dict)):
+                edit_obj(v, '%s[%d]' % (name, i), kind, done, depth + 1)
+        if kind == 'list' and isinstance(x, list):
+            x.append(None); done.append('%s.append(None)' % name)
+    elif isinstance(x, dict):
+        for k, v in list(x.items()):
+            if isinstance(v, (np.ndarray, list, tuple, dict)):
+                edit_obj(v, '%s{%s}' % (name, str(k)[:20]), kind, done, depth + 1)
+
+def _val(f):
+    try:
+        v = f()
+        if isinstance(v, (float, np.floating, int, np.integer)) or (isinstance(v, np.ndarray) and v.ndim == 0) or v is np.ma.masked:
+            return 'masked' if v is np.ma.masked else fhex(v)
+        return digest(canon(v))
+    except Exception as e:
+        return 'error:' + type(e).__name__
+
+def _ll_data(x):
+    n = int(np.prod(x.shape))
+    d = Spectrum((np.floor(5 + 3 * np.arange(n)) % 17 + 1.0).reshape(x.shape))
+    return d.fold() if getattr(x, 'folded', False) else d
+
+def followups(objs, spec):
+    """label -> {name of the follow-up call: value}: the later computations whose values must not depend on what was done to OTHER objects"""
+    out = {}
+    def one(x, lab, depth=0):
+        if len(out) >= 8 or depth > 3:
+            return
+        if isinstance(x, Spectrum) and x.ndim >= 1:
+            out[lab] = {'sum': _val(lambda: x.sum()), 'S': _val(lambda: x.S()), 'll': _val(lambda: Inference.ll(x, _ll_data(x))),
+                        'll_multinom': _val(lambda: Inference.ll_multinom(x, _ll_data(x))), 'value': digest(canon(x))}
+        elif isinstance(x, np.ma.MaskedArray):
+            out[lab] = {'sum': _val(lambda: x.sum()), 'count': _val(lambda: x.count()), 'value': digest(canon(x))}
+        elif isinstance(x, np.ndarray):
+            out[lab] = {'value': digest(canon(x))}
+            pts = spec.get('pts')
+            if spec['op'] in ('integ', 'pm', 'from_phi') and isinstance(pts, int) and 1 <= x.ndim <= 5 and all(n == pts for n in x.shape) \
+                    and x.dtype.kind == 'f' and not lab.startswith('xx'):
+                xx = _grid(pts, spec.get('grid'))
+                out[lab]['from_phi'] = _val(lambda: Spectrum.from_phi(x, [2] * x.ndim, [xx] * x.ndim))
+        elif isinstance(x, (list, tuple)):
+            if isinstance(x, list):
+                out[lab] = {'value': digest(canon(x))}
+            for i, v in enumerate(x):
+                if isinstance(v, (np.ndarray, list, tuple, dict)):
+                    one(v, '%s[%d]' % (lab, i), depth + 1)
+        elif isinstance(x, dict):
+            for k, v in x.items():
+                if isinstance(v, (np.ndarray, list, tuple, dict)):
+                    one(v, '%s{%s}' % (lab, str(k)[:20]), depth + 1)
+    for n, o in objs.items():
+        one(o, n)
+    return out
+
+def _build(spec):
+    A = Args()
+    return A, BUILDERS[spec['op']](A, copy.deepcopy(spec))      # Spectrum keeps the pop_ids list it is given BY REFERENCE: never hand it the specification's own
+
+def _diff(s1, s2):
+    return sorted(set(l for l in s1 if s1[l] != s2.get(l)) | set(l for l in s2 if l not in s1))
+
+def mut_pristine_args(spec):
+    A, thunk = _build(spec)
+    return {'followups': followups(A.frozen, spec)}
+
+def mut_pristine_result(spec):
+    A, thunk = _build(spec)
+    try:
+        R = thunk()
+    except Exception as e:
+        return {'error': type(e).__name__ + ': ' + str(e)[:200]}
+    pairs, al = alias_pairs(R, A.frozen)
+    return {'digest': digest(canon(R)), 'followups': followups({'R': R}, spec), 'array_like': al, 'alias_pairs': pairs,
+            'result_type': type(R).__name__}
+
+def mut_edit_result(spec, kind):
+    """R = f(A); edit R in place; which buffers of A changed, g(A), f(A) again"""
+    A, thunk = _build(spec)
+    s0 = raw_snapshot(A.frozen)
+    try:
+        R = thunk()
+    except Exception as e:
+        return {'error': type(e).__name__ + ': ' + str(e)[:200]}
+    s1 = raw_snapshot(A.frozen)
+    if any(p[1].startswith('global:') for p in alias_pairs(R, A.frozen)[0]):
+        # the result IS (part of) a module-level object: the ALIAS obligation decides on the pair; editing it would corrupt the process for the next phase
+        return {'skipped': True, 'why': 'the result shares memory with a module-level object'}
+    done = []
+    edit_obj(R, 'R', kind, done)
+    if not done:
+        return {'skipped': True}
+    s2 = raw_snapshot(A.frozen)
+    out = {'edits': done, 'changed_by_call': _diff(s0, s1), 'changed': _diff(s1, s2), 'followups': followups(A.frozen, spec)}
+    try:
+        out['again'] = digest(canon(thunk()))
+    except Exception as e:
+        out['again'] = 'error:' + type(e).__name__
+    return out
+
+def mut_edit_args(spec, kind):
+    """R = f(A); edit A in place; which buffers of R changed, g(R)"""
+    A, thunk = _build(spec)
+    try:
+        R = thunk()
+    except Exception as e:
+        return {'error': type(e).__name__ + ': ' + str(e)[:200]}
+    r1 = raw_snapshot({'R': R})
+    if not r1:
+        return {'skipped': True}
+    done = []
+    for n, o in list(A.frozen.items()):
+        edit_obj(o, n, kind, done)
+    if not done:
+        return {'skipped': True}
+    r2 = raw_snapshot({'R': R})
+    return {'edits': done[:12], 'changed': _diff(r1, r2), 'followups': followups({'R': R}, spec)}
+
+def in_fork(fn):
+    r, w = os.pipe()
+    sys.stdout.flush()
+    pid = os.fork()
+    if pid == 0:
+        os.close(r)
+        try:
+            data = json.dumps(fn()).encode()
+        except BaseException:
+            import traceback
+            data = json.dumps({'crash': traceback.format_exc()[-1200:]}).encode()
+        try:
+            with os.fdopen(w, 'wb') as f:
+                f.write(data)
+        finally:
+            os._exit(0)
+    os.close(w)
+    chunks = []
+    with os.fdopen(r, 'rb') as f:
+        while True:
+            c = f.read(1 << 20)
+            if not c:
+                break
+            chunks.append(c)
+    _, status = os.waitpid(pid, 0)
+    if not chunks:
+        return {'crash': 'child died without output (wait status %d)' % status}
+    return json.loads(b''.join(chunks))
+
+def mode_mutate(p):
+    """THIS process has only imported dadi and never evaluates a call itself: every phase runs in its own fork of it"""
+    out = []
+    kinds = p.get('kinds') or EDIT_KINDS
+    for spec in p['calls']:
+        rec = {'P_A': in_fork(lambda: mut_pristine_args(spec)), 'P_R': in_fork(lambda: mut_pristine_result(spec))}
+        rec['M'] = in_fork(lambda: {k: {'R': mut_edit_result(spec, k), 'A': mut_edit_args(spec, k)} for k in kinds})
+        out.append(rec)
+    return {'calls': out}
+
+
 def dispatch(p):
     mode = p.get('mode', 'eval')
-    return {'eval': mode_eval, 'layout': mode_layout, 'diagnose': mode_diagnose}[mode](p)
+    return {'eval': mode_eval, 'layout': mode_layout, 'diagnose': mode_diagnose, 'mutate': mode_mutate}[mode](p)
 
 
 def mode_batch(p):
